@@ -99,20 +99,29 @@ pub fn fee_outcome(db: &mut InMemorySubstateDatabase, receipt: &TransactionRecei
 
 /// all transaction scenarios, each when it first becomes valid, at every protocol version (own loop in
 /// place of TransactionScenarioExecutor so that the database is available BEFORE the commit)
-pub fn for_each_scenario_transaction(max_scenarios: usize, mut f: impl FnMut(&mut InMemorySubstateDatabase, &TransactionValidator, &str, &RawNotarizedTransaction) -> TransactionReceipt) {
+/// the first `max_scenarios` scenarios and, whatever their position, the ones named in `also`
+pub fn for_each_scenario_transaction(max_scenarios: usize, also: &[String], mut f: impl FnMut(&mut InMemorySubstateDatabase, &TransactionValidator, &str, &RawNotarizedTransaction) -> TransactionReceipt) {
     let network = NetworkDefinition::simulator();
     let mut db = InMemorySubstateDatabase::standard();
     let mut nonce = 0u32;
     let mut done = 0usize;
+    let mut also_left: Vec<String> = also.to_vec();
     let protocol = ProtocolBuilder::for_network(&network).from_bootstrap_to_latest();
     for update in protocol.each_protocol_update_executor(&db) {
         let version = update.protocol_version;
         update.run_and_commit(&mut db);
         let validator = TransactionValidator::new(&db, &network);
         for creator in all_scenarios_iter().filter(|c| c.metadata().protocol_min_requirement == version) {
+            let name = creator.metadata().logical_name.to_string();
             if done >= max_scenarios {
-                return;
+                if also_left.is_empty() {
+                    return;
+                }
+                if !also_left.contains(&name) {
+                    continue;
+                }
             }
+            also_left.retain(|n| *n != name);
             done += 1;
             let epoch = SystemDatabaseReader::new(&db)
                 .read_typed_object_field::<radix_engine::blueprints::consensus_manager::ConsensusManagerStateFieldPayload>(CONSENSUS_MANAGER.as_node_id(), ModuleId::Main, 1u8)
@@ -120,7 +129,6 @@ pub fn for_each_scenario_transaction(max_scenarios: usize, mut f: impl FnMut(&mu
                 .fully_update_and_into_latest_version()
                 .epoch;
             let mut scenario = creator.create(ScenarioCore::new(network.clone(), epoch, nonce));
-            let name = creator.metadata().logical_name.to_string();
             let mut previous: Option<TransactionReceipt> = None;
             loop {
                 match scenario.next(previous.as_ref()).map_err(|e| format!("{:?}", e.into_full(scenario.as_ref()))).expect("scenario") {
@@ -145,7 +153,8 @@ pub fn run(mode: &str, args: &Args) {
             let max = args.u64("max", 1000) as usize;
             let network = NetworkDefinition::simulator();
             let mut n = 0u64;
-            for_each_scenario_transaction(max, |db: &mut InMemorySubstateDatabase, validator: &TransactionValidator, label: &str, raw: &RawNotarizedTransaction| {
+            let also: Vec<String> = args.str("also", "").split(',').filter(|x| !x.is_empty()).map(|x| x.to_string()).collect();
+            for_each_scenario_transaction(max, &also, |db: &mut InMemorySubstateDatabase, validator: &TransactionValidator, label: &str, raw: &RawNotarizedTransaction| {
                 let validated = raw.validate(validator).expect("scenario transaction validates");
                 let receipt = execute_transaction(&*db, &VmModules::default(), &ExecutionConfig::for_notarized_transaction(network.clone()), validated.create_executable());
                 if let Some(ev) = fee_outcome(db, &receipt, label) {
@@ -177,7 +186,8 @@ fn history(args: &Args, out: &mut Out) {
         let (pk_a, acc_a) = accounts[a];
         let (pk_b, acc_b) = accounts[b];
         let mut m = ManifestBuilder::new();
-        let kind = rng.gen_range(0..6);
+        // the kind is not drawn: k % 6 against the k % 7 costing override below covers the full product in 42 steps
+        let kind = k % 6;
         let fee = Decimal::from(rng.gen_range(5..50u32));
         m = match kind {
             1 => m.lock_fee(acc_a, fee).lock_fee(acc_b, Decimal::from(2u32)),
